@@ -95,7 +95,14 @@ class Exec:
             goal = fn(st.tn, record, st) if predicate else record == fn(st.tn)
             if isinstance(goal, list):
                 # several named conditions on this call: one obligation each
-                for label, g in goal: self.oblige(f'trace:{label}', st, g, kind='trace')
+                for label, g in goal:
+                    if label.startswith('qf:'):
+                        # a quantifier-free goal over locals: decided from the quantifier-free path facts alone (fewer hypotheses:
+                        # sound for the proof; a refutation is confirmed by the native replay)
+                        slim = st.copy(); slim.pc = [f for f in st.pc if not _has_quant_cached(f)]
+                        self.oblige(f'trace:{label[3:]}', slim, g, kind='trace')
+                    else:
+                        self.oblige(f'trace:{label}', st, g, kind='trace')
             else:
                 self.oblige('trace:each_call_is_the_expected_one_at_its_position', st, goal, kind='trace')
             if length is not None:
@@ -517,7 +524,11 @@ class Exec:
         for s1, nz in self.fork(st, b != 0, f'L{ln}.nonzero'):
             if not nz: outs.append((s1, self.raise_(s1, 'ZeroDivisionError', where='operator'))); continue
             if isinstance(op, ast.Div): outs.append((s1, ZV('real', a / b)))
-            elif not real and isinstance(op, ast.Mod): outs.append((s1, ZV('int', floormod_int(a, b))))
+            elif not real and isinstance(op, ast.Mod):
+                m = floormod_int(a, b)
+                # instances of the definition of the floor modulo for a positive divisor (help for the solver, no new facts)
+                s1.assume(Implies(b > 0, And(0 <= m, m < b)), Implies(And(b > 0, 0 <= a, a < b), m == a), Implies(And(b > 0, a == b), m == 0))
+                outs.append((s1, ZV('int', m)))
             elif not real and isinstance(op, ast.FloorDiv): outs.append((s1, ZV('int', floordiv_int(a, b))))
             elif isinstance(op, (ast.Mod, ast.FloorDiv)):
                 # float floor division / modulo over the reals: q = floor(a/b), m = a - b*q   ("real-arith")
